@@ -139,9 +139,21 @@ def _same(got, want):
     return (not isinstance(got, (bool, str)) and isinstance(got, (int, float)) and got == want)
 
 
-def _argument_validation_key(key):
-    """mechanisms about a position / count argument that must give #VALUE! whatever the text is"""
-    return key.endswith('-not-VALUE') or key in ('FIND/start-below-1', 'SUBSTITUTE/instance-below-1')
+def py_str(v):
+    """what python's str() makes of a number (3.0, 1e-05): the rendering the statement rules out.  Only used
+    to *name* a mechanism after a comparison has failed (got == the model fed with this rendering)"""
+    if isinstance(v, bool) or not isinstance(v, (int, float)):
+        return v
+    return str(v)
+
+
+def _rendering_key(args):
+    kinds = {R.kind(a) for a in args}
+    if 'float-below-1e-4' in kinds:
+        return 'NUMBER-RENDERING/float-below-1e-4-in-exponent-notation'
+    if 'integral-float' in kinds:
+        return 'NUMBER-RENDERING/integral-float-keeps-.0'
+    return 'NUMBER-RENDERING/python-str'
 
 
 def _exc_class(out):
@@ -202,8 +214,9 @@ class Mon:
                 f'{args!r} gives {direct!r}', self.case)
 
     # -- deciding
-    def expect(self, func, args, out, accept, clause, specific):
-        """out must be a value from ``accept``; ``specific`` -> mechanism key for a wrong value"""
+    def expect(self, func, args, out, accept, clause, specific, alt=None):
+        """out must be a value from ``accept``; ``specific`` -> mechanism key for a wrong value;
+        ``alt`` -> what the model gives when numbers are rendered by python's str() (names that mechanism)"""
         self.compares += 1
         if not isinstance(accept, tuple):
             accept = (accept,)
@@ -213,11 +226,12 @@ class Mon:
         if out[0] == 'x':
             key = f'{func}/raises-{_exc_class(out)}'
         else:
-            key = specific(out[1])
-            if (func != 'TEXT' and not _argument_validation_key(key)
-                    and any(R.kind(a) == 'float-below-1e-4' for a in args)):
-                # the text argument is a number python writes with an exponent: one mechanism for all functions
-                key = 'NUMBER-RENDERING/float-below-1e-4-in-exponent-notation'
+            a = alt() if alt is not None and any(py_str(x) is not x for x in args) else ()
+            a = a if isinstance(a, tuple) else (a,)
+            if any(_same(out[1], w) for w in a):
+                key = _rendering_key(args)
+            else:
+                key = specific(out[1])
         want = ' or '.join(repr(w) for w in accept)
         self.ctx.violation(key, f'{func}({", ".join(repr(a) for a in args)}) = {out[1]!r}, expected {want} '
                                 f'[{clause}]', self.case)
@@ -236,17 +250,14 @@ class Mon:
         self.ctx.count('compares', self.compares)
 
 
-def _slice_key(func, subject, count_args, start=None, length=None):
+def _slice_key(func, subject, count_args, start=None):
     """mechanism key for a wrong LEFT / RIGHT / MID / REPLACE value (a predicate over the inputs)"""
     def key(got):
-        k = R.kind(subject)
         if any(c < 0 for c in count_args):
             return f'{func}/negative-count-not-VALUE'
         if start is not None and start < 1:
             return f'{func}/start-below-1-not-VALUE'
-        if k != 'text':
-            return f'{func}/{k}-rendering'
-        n = len(subject)
+        n = R.length(subject)
         if any(c == 0 for c in count_args):
             return f'{func}/zero-count'
         if (start is not None and start > n) or (start is None and count_args and count_args[0] >= n):
@@ -269,10 +280,10 @@ def law_slice(ctx, s, n, force=False, sig=None):
     cl = 'the slicing functions treat numbers as their Excel rendering and give #VALUE! for negative counts'
     lf = m.call('left', s, n)
     ok_l = m.expect('LEFT', (s, n), lf, R.left(s, ni), 'LEFT(s,n) is the first n characters; ' + cl,
-                    _slice_key('LEFT', s, [ni]))
+                    _slice_key('LEFT', s, [ni]), alt=lambda: R.left(py_str(s), ni))
     rt = m.call('right', s, n)
     m.expect('RIGHT', (s, n), rt, R.right(s, ni), 'RIGHT(s,k) is the last k characters; ' + cl,
-             _slice_key('RIGHT', s, [ni]))
+             _slice_key('RIGHT', s, [ni]), alt=lambda: R.right(py_str(s), ni))
     ln = m.call('len_', s)
     numeric = R.kind(s) in ('int', 'integral-float', 'float', 'float-below-1e-4')
     if (numeric and not STRICT_LEN_OF_NUMBERS and ln[0] == 'v' and _is_int_value(ln[1])
@@ -284,11 +295,12 @@ def law_slice(ctx, s, n, force=False, sig=None):
     else:
         m.expect('LEN', (s,), ln, R.length(s), 'LEN(s) is the number of characters of s (at least the rest of s in '
                  'MID(s,n+1,LEN(s)))',
-                 lambda got: 'LEN/' + R.kind(s) + ('-counted-as-python-repr' if numeric else ''))
+                 lambda got: 'LEN/' + R.kind(s), alt=lambda: R.length(py_str(s)))
     cnt = ln[1] if ln[0] == 'v' and _is_int_value(ln[1]) and ln[1] >= 0 else R.length(s)
     md = m.call('mid', s, n + 1, cnt)
     ok_m = m.expect('MID', (s, n + 1, cnt), md, R.mid(s, ni + 1, int(cnt)), 'MID(s,n+1,LEN(s)) is the rest after n '
-                    'characters; ' + cl, _slice_key('MID', s, [int(cnt)], start=ni + 1))
+                    'characters; ' + cl, _slice_key('MID', s, [int(cnt)], start=ni + 1),
+                    alt=lambda: R.mid(py_str(s), ni + 1, int(cnt)))
     if ni >= 0 and lf[0] == md[0] == 'v' and not R.is_error(lf[1]) and not R.is_error(md[1]):
         ctx.count('identity:left&mid')
         j = m.amp(lf[1], md[1])
@@ -313,12 +325,13 @@ def law_mid(ctx, s, n, k, ts, force=False, sig=None):
         ctx.count('start<1')
     cl = 'negative counts give #VALUE!; numbers are sliced as their Excel rendering'
     m.expect('MID', (s, n, k), m.call('mid', s, n, k), R.mid(s, ni, ki), 'MID(s,n,k) is k characters from '
-             'position n; ' + cl, _slice_key('MID', s, [ki], start=ni))
+             'position n; ' + cl, _slice_key('MID', s, [ki], start=ni), alt=lambda: R.mid(py_str(s), ni, ki))
     for i, t in enumerate(ts):
         rp = m.call('replace', s, n, k, t)
         ok = m.expect('REPLACE', (s, n, k, t), rp, R.replace(s, ni, ki, t),
                       'REPLACE(s,n,k,t) = LEFT(s,n-1) & t & MID(s,n+k,LEN(s)); ' + cl,
-                      _slice_key('REPLACE', s, [ki], start=ni))
+                      _slice_key('REPLACE', s, [ki], start=ni),
+                      alt=lambda t=t: R.replace(py_str(s), ni, ki, py_str(t)))
         if i == 0 and ni >= 1 and ki >= 0 and rp[0] == 'v':
             # the identity computed by pycel alone
             ctx.count('identity:replace')
@@ -364,8 +377,6 @@ def law_find(ctx, f, s, start, force=False, sig=None):
             return 'FIND/start-beyond-length'
         if needle == '':
             return 'FIND/empty-needle'
-        if R.kind(s) != 'text' or R.kind(f) != 'text':
-            return 'FIND/non-text-argument-rendering'
         if accept[0] == R.VALUE:
             return 'FIND/no-match-not-VALUE'
         if got == R.VALUE:
@@ -376,7 +387,7 @@ def law_find(ctx, f, s, start, force=False, sig=None):
             return 'FIND/match-before-start'
         return 'FIND/unclassified'
     m.expect('FIND', args, out, accept, 'FIND returns the first position p (>= start) with MID(s,p,LEN(f)) = f '
-             'or #VALUE!; start < 1 -> #VALUE!', key)
+             'or #VALUE!; start < 1 -> #VALUE!', key, alt=lambda: R.find(py_str(f), py_str(s), st))
     m.done(s, sig)
 
 
@@ -401,8 +412,6 @@ def law_sub(ctx, s, old, new, inst, force=False, sig=None):
     out = m.call('substitute', *args)
 
     def key(got):
-        if any(R.kind(a) != 'text' for a in (s, old, new)):
-            return 'SUBSTITUTE/non-text-argument-rendering'
         if ii is None:
             return 'SUBSTITUTE/all-occurrences'
         if ii < 1:
@@ -410,7 +419,9 @@ def law_sub(ctx, s, old, new, inst, force=False, sig=None):
         if ii > nocc:
             return 'SUBSTITUTE/instance-beyond-count-changes-text'
         return 'SUBSTITUTE/ith-occurrence'
-    m.expect('SUBSTITUTE', args, out, accept, 'SUBSTITUTE replaces all or exactly the i-th occurrence', key)
+    m.expect('SUBSTITUTE', args, out, accept, 'SUBSTITUTE replaces all or exactly the i-th occurrence', key,
+             alt=lambda: R.substitute(py_str(s), py_str(old), py_str(new), ii)
+             if R.render(py_str(old)) and not R.self_overlapping(R.render(py_str(old))) else ())
     m.done(s, sig)
 
 
@@ -430,14 +441,13 @@ def law_case(ctx, s, force=False, sig=None):
     t1 = m.call('trim', s)
 
     def trim_key(got):
-        if R.kind(s) != 'text':
-            return f'TRIM/{R.kind(s)}-rendering'
         if isinstance(got, str) and got.strip(' ') == want:
             return 'TRIM/keeps-leading-trailing'
         if isinstance(got, str) and _RUNS.sub(' ', got).strip(' ') == want:
             return 'TRIM/keeps-inner-runs'
         return 'TRIM/unclassified'
-    m.expect('TRIM', (s,), t1, want, 'TRIM leaves single inner spaces and none at the ends', trim_key)
+    m.expect('TRIM', (s,), t1, want, 'TRIM leaves single inner spaces and none at the ends', trim_key,
+             alt=lambda: R.trim(py_str(s)))
     for name in ('trim', 'upper', 'lower'):
         once = t1 if name == 'trim' else m.call(name, s)
         if once[0] != 'v':
@@ -472,6 +482,19 @@ def law_exact(ctx, a, b, force=False, sig=None):
     m.done(a, sig)
 
 
+def _concat_culprit(args):
+    """kind of the first operand that CONCATENATE and & render differently on its own (mechanism key part)"""
+    for a in args:
+        c = lib.call('concatenate', a)
+        try:
+            j = ('v', lib.operator_fixup()(a, 'BitAnd', ''))
+        except Exception as exc:  # noqa
+            j = ('x', type(exc).__name__)
+        if c != j:
+            return R.kind(a) + '-operand'
+    return 'only-when-joined'
+
+
 def law_concat(ctx, args, force=False, sig=None):
     m = Mon(ctx, 'concat', {'args': args}, force)
     c = m.call('concatenate', *args)
@@ -490,7 +513,7 @@ def law_concat(ctx, args, force=False, sig=None):
             ctx.violation(f'{name}/raises-{_exc_class(out)}', f'{name} over {args!r} raised {out[1]}', m.case)
     if c[0] == j[0] == 'v':
         if not (type(c[1]) is type(j[1]) and c[1] == j[1]):
-            ctx.violation('CONCATENATE/differs-from-&/' + '+'.join(kinds),
+            ctx.violation('CONCATENATE/differs-from-&/' + _concat_culprit(args),
                           f'CONCATENATE{tuple(args)!r} = {c[1]!r} but joining the same operands with & gives '
                           f'{j[1]!r} [CONCATENATE and & agree]', m.case)
         elif kinds == ['text']:
@@ -522,18 +545,23 @@ def law_text(ctx, x, fmt, force=False, sig=None):
     ctx.count('TEXT:' + ('int' if isinstance(x, int) else 'float'))
 
     def key(got):
-        if tie:
-            return 'TEXT/half-even-or-binary-rounding'
-        if isinstance(got, str) and got.replace(',', '') == accept[0].replace(',', ''):
+        want = accept[0]
+        if isinstance(got, str) and got.replace(',', '') == want.replace(',', ''):
             return 'TEXT/grouping'
-        if isinstance(got, str) and got.lstrip('-') == accept[0].lstrip('-'):
+        if isinstance(got, str) and got.lstrip('-') == want.lstrip('-'):
             return 'TEXT/sign'
-        if isinstance(got, str) and p['optional'] and got.rstrip('%').rstrip('0') == \
-                accept[0].rstrip('%').rstrip('0'):
+        if isinstance(got, str) and p['optional'] and got.rstrip('%').rstrip('0') == want.rstrip('%').rstrip('0'):
             return 'TEXT/optional-digits'
         if isinstance(got, str) and got.replace(',', '').lstrip('-').lstrip('0') == \
-                accept[0].replace(',', '').lstrip('-').lstrip('0'):
+                want.replace(',', '').lstrip('-').lstrip('0'):
             return 'TEXT/forced-integer-digits'
+        if got in R.text_number(x, fmt, binary_half_even=True):
+            # what rounding the binary double (after a binary multiplication by 100 for %) half-even gives
+            return 'TEXT/half-even-or-binary-rounding'
+        if tie:
+            return 'TEXT/tie-rounded-otherwise'
+        if p['percent']:
+            return 'TEXT/percent-scaling'
         return 'TEXT/unclassified'
     m.expect('TEXT', (x, fmt), m.call('text', x, fmt), accept, 'TEXT(x,f) renders the half-away-from-zero decimal '
              'rounding of x with the requested digits, grouping and percent scaling', key)
